@@ -34,6 +34,14 @@ type Query struct {
 	Text    string
 	VarList []*Term // scalar variables (for get-value)
 	Nodes   int
+	Cells   []cellReq // array cells read by the query (for model extraction)
+	Decl    map[string]bool
+}
+
+type cellReq struct {
+	Arr  string // base array variable
+	Idx  string // printed index term
+	ElW  int
 }
 
 func (c *Ctx) BuildQuery(asserts []*Term) *Query {
@@ -70,7 +78,8 @@ func (c *Ctx) BuildQuery(asserts []*Term) *Query {
 	for _, a := range asserts {
 		visit(a)
 	}
-	q := &Query{Nodes: len(order)}
+	q := &Query{Nodes: len(order), Decl: map[string]bool{}}
+	cellSeen := map[string]bool{}
 	name := func(t *Term) string {
 		switch t.Op {
 		case OConst:
@@ -87,6 +96,7 @@ func (c *Ctx) BuildQuery(asserts []*Term) *Query {
 			continue
 		case OVar:
 			fmt.Fprintf(&sb, "(declare-fun |%s| () %s)\n", t.Name, t.Sort)
+			q.Decl[t.Name] = true
 			if t.Sort.K != SArr {
 				q.VarList = append(q.VarList, t)
 			}
@@ -99,6 +109,15 @@ func (c *Ctx) BuildQuery(asserts []*Term) *Query {
 					sb.WriteString(a.Sort.String() + " ")
 				}
 				fmt.Fprintf(&sb, ") %s)\n", t.Sort)
+			}
+		}
+		if t.Op == OSelect {
+			for _, base := range baseArrays(t.A[0]) {
+				k := base.Name + "@" + name(t.A[1])
+				if !cellSeen[k] && len(q.Cells) < 4000 {
+					cellSeen[k] = true
+					q.Cells = append(q.Cells, cellReq{Arr: base.Name, Idx: name(t.A[1]), ElW: base.Sort.W})
+				}
 			}
 		}
 		fmt.Fprintf(&sb, "(define-fun t%d () %s ", t.ID, t.Sort)
@@ -145,6 +164,30 @@ func (c *Ctx) BuildQuery(asserts []*Term) *Query {
 	}
 	q.Text = sb.String()
 	return q
+}
+
+// baseArrays returns the array variables at the bottom of a store/ite chain.
+func baseArrays(a *Term) []*Term {
+	var out []*Term
+	seen := map[int32]bool{}
+	var rec func(t *Term)
+	rec = func(t *Term) {
+		if seen[t.ID] {
+			return
+		}
+		seen[t.ID] = true
+		switch t.Op {
+		case OVar:
+			out = append(out, t)
+		case OStore:
+			rec(t.A[0])
+		case OIte:
+			rec(t.A[1])
+			rec(t.A[2])
+		}
+	}
+	rec(a)
+	return out
 }
 
 type SolveResult struct {
@@ -296,6 +339,31 @@ func (s *Solver) Solve(q *Query, timeoutSec int, wantModel bool) (*SolveResult, 
 			return r, false
 		}
 	}
+	if r.Status == "sat" && wantModel && len(q.Cells) > 0 {
+		if r.Model == nil {
+			r.Model = map[string]uint64{}
+		}
+		mk3 := nextMarker()
+		var gb strings.Builder
+		gb.WriteString("(get-value (")
+		for _, cq := range q.Cells {
+			fmt.Fprintf(&gb, "%s (select |%s| %s) ", cq.Idx, cq.Arr, cq.Idx)
+		}
+		gb.WriteString("))\n")
+		fmt.Fprintf(&gb, "(echo \"%s\")\n", mk3)
+		io.WriteString(s.in, gb.String())
+		mout, err := s.readUntil(mk3, 60*time.Second)
+		if err != nil {
+			r.Secs = time.Since(t0).Seconds()
+			return r, false
+		}
+		vals := parseValueList(mout)
+		for i, cq := range q.Cells {
+			if 2*i+1 < len(vals) {
+				r.Model[fmt.Sprintf("%s@%d", cq.Arr, vals[2*i])] = vals[2*i+1]
+			}
+		}
+	}
 	r.Secs = time.Since(t0).Seconds()
 	return r, true
 }
@@ -400,4 +468,71 @@ func (p *SolverPool) Close() {
 			return
 		}
 	}
+}
+
+// parseValueList parses a get-value response ((e1 v1) (e2 v2) ...) positionally, returning v1, v2, ...
+func parseValueList(s string) []uint64 {
+	var out []uint64
+	// tokenise into top-level pairs
+	depth := 0
+	start := -1
+	for i := 0; i < len(s); i++ {
+		switch s[i] {
+		case '(':
+			depth++
+			if depth == 2 {
+				start = i
+			}
+		case ')':
+			if depth == 2 && start >= 0 {
+				pair := s[start+1 : i]
+				out = append(out, lastValue(pair))
+				start = -1
+			}
+			depth--
+		}
+	}
+	return out
+}
+
+// lastValue extracts the value (last s-expression) of "expr value".
+func lastValue(pair string) uint64 {
+	pair = strings.TrimSpace(pair)
+	var val string
+	if strings.HasSuffix(pair, ")") {
+		// value like (_ bv5 64)
+		d := 0
+		i := len(pair) - 1
+		for ; i >= 0; i-- {
+			if pair[i] == ')' {
+				d++
+			} else if pair[i] == '(' {
+				d--
+				if d == 0 {
+					break
+				}
+			}
+		}
+		val = pair[i:]
+	} else {
+		i := strings.LastIndexAny(pair, " \n\t")
+		val = pair[i+1:]
+	}
+	switch {
+	case val == "true":
+		return 1
+	case val == "false":
+		return 0
+	case strings.HasPrefix(val, "#x"):
+		u, _ := strconv.ParseUint(val[2:], 16, 64)
+		return u
+	case strings.HasPrefix(val, "#b"):
+		u, _ := strconv.ParseUint(val[2:], 2, 64)
+		return u
+	case strings.HasPrefix(val, "(_ bv"):
+		f := strings.Fields(val[5:])
+		u, _ := strconv.ParseUint(f[0], 10, 64)
+		return u
+	}
+	return 0
 }
